@@ -1827,15 +1827,26 @@ class TimePoint:
         if self._second_of_minute is not None:
             num_minutes, seconds = divmod(self._second_of_minute,
                                           CALENDAR.SECONDS_IN_MINUTE)
+            if seconds == CALENDAR.SECONDS_IN_MINUTE:
+                # float remainder of a tiny negative value rounds up to the
+                # modulus
+                num_minutes += 1
+                seconds = 0
             self._minute_of_hour += num_minutes
             self._second_of_minute = seconds
         if self._minute_of_hour is not None:
             num_hours, minutes = divmod(self._minute_of_hour,
                                         CALENDAR.MINUTES_IN_HOUR)
+            if minutes == CALENDAR.MINUTES_IN_HOUR:
+                num_hours += 1
+                minutes = 0
             self._hour_of_day += num_hours
             self._minute_of_hour = minutes
         if self._hour_of_day is not None:
             num_days, hours = divmod(self._hour_of_day, CALENDAR.HOURS_IN_DAY)
+            if hours == CALENDAR.HOURS_IN_DAY:
+                num_days += 1
+                hours = 0
             num_days = int(num_days)
             if self._day_of_week is not None:
                 self._day_of_week += num_days
